@@ -147,6 +147,9 @@ func (cl *cluster) step(ev string) {
 	if len(cl.viol) > 0 {
 		return
 	}
+	if cl.cfg.ViaRPC {
+		cl.awaitExits()
+	}
 	if cl.cfg.RealMon {
 		cl.settleReal(ev)
 		if len(cl.viol) > 0 {
